@@ -723,6 +723,8 @@ class Assembler:
                     inserts.append(Ins(q + 1, f"{itname}:", "loop-iter"))
                 inserts.append(Ins(ob, self.spec_text(fs, ltext, emit_name, f"loop{n}"), f"loop:{fs.path}:{n}"))
             for h in fs.hints:
+                if h.home_only and mode == "strict":
+                    continue
                 r = self.find_anchor(v, body_a, body_b, h.anchor, h.occ)
                 if r is None:
                     # proof hint whose anchor statement no longer exists: drop the hint and say so; the
@@ -756,6 +758,63 @@ class Assembler:
         if mode == "extern":
             self.assumptions.append(f"assumed contract on {fs.path} (external_body in unit {self.unit.name}; proved in home unit {fs.unit})")
         return fi, it
+
+    def emit_bitflags(self, mod):
+        """R7: the bitflags!-generated flag type is replaced by a stub struct over the same integer
+        type; the flag constants are read from the macro invocation on every run."""
+        if mod not in self.src.files:
+            raise ExtractError(f"%bitflags: no %file for module {mod}")
+        fi = self.src.files[mod]
+        v = fi.v
+        its = [it for it in fi.items if it.kind == "macro" and it.name == "bitflags"]
+        if len(its) != 1:
+            raise ExtractError(f"lost anchor: {len(its)} bitflags! invocations in module {mod}")
+        it = its[0]
+        a, b = it.body
+        k = a + 1
+        while v.is_p(k, "#"):
+            k = v.match[k + 1] + 1
+        if v.is_id(k, "pub"):
+            k += 1
+        if not v.is_id(k, "struct"):
+            raise ExtractError("bitflags!: unexpected shape")
+        name = v.text(k + 1)
+        ty = v.text(k + 3)
+        ob = k + 4
+        cb = v.match[ob]
+        consts = []
+        q = ob + 1
+        while q < cb:
+            while v.is_p(q, "#"):
+                q = v.match[q + 1] + 1
+            if v.is_id(q, "const"):
+                cname = v.text(q + 1)
+                j = q + 3
+                toks = []
+                while not v.is_p(j, ";"):
+                    toks.append(v.t[j])
+                    j += 1
+                val = self.eval_int(toks)
+                consts.append((cname, val))
+                q = j + 1
+            else:
+                q += 1
+        lines = [f"/*@L bitflags-stub*/", f"// R7: stub for bitflags! struct {name}: {ty}; constants read from {fi.v.path.replace(REPO + '/', '')}",
+                 f"#[derive(Clone, Copy, PartialEq, Eq, Structural)]", f"struct {name} {{ bits: {ty} }}", f"impl {name} {{"]
+        for cname, val in consts:
+            lines.append(f"    const {cname}: {name} = {name} {{ bits: {hex(val)} }};")
+        lines.append(f"""    spec fn has(self, o: {name}) -> bool {{ self.bits & o.bits == o.bits }}
+    const fn contains(&self, o: {name}) -> (r: bool) ensures r == self.has(o) {{ self.bits & o.bits == o.bits }}
+    const fn empty() -> (r: {name}) ensures r.bits == 0 {{ {name} {{ bits: 0 }} }}
+    const fn bits(&self) -> (r: {ty}) ensures r == self.bits {{ self.bits }}
+    const fn union(self, o: {name}) -> (r: {name}) ensures r.bits == self.bits | o.bits {{ {name} {{ bits: self.bits | o.bits }} }}
+    const fn intersects(&self, o: {name}) -> (r: bool) ensures r == (self.bits & o.bits != 0) {{ self.bits & o.bits != 0 }}
+    fn remove(&mut self, o: {name}) ensures final(self).bits == old(self).bits & !o.bits {{ self.bits = self.bits & !o.bits; }}
+    fn insert(&mut self, o: {name}) ensures final(self).bits == old(self).bits | o.bits {{ self.bits = self.bits | o.bits; }}
+}}""")
+        lines.append("/*@E*/")
+        self.emit("\n" + "\n".join(lines) + "\n")
+        self.flag_consts = dict(consts)
 
     def impl_header(self, fi, impl_it):
         v = fi.v
@@ -815,6 +874,9 @@ class Assembler:
                 in_trait_impl = it.parent is not None and it.parent.kind == "impl" and it.parent.impl_trait is not None
                 if self.canaries and has_req and not fs.nocanary and not in_trait_impl:
                     self.emit_fn(fs, "canary")
+            elif e[0] == "bitflags":
+                close_impl()
+                self.emit_bitflags(e[1])
             elif e[0] == "implraw":
                 fi, cands = self.src.find(e[1])
                 cands = [c for c in cands if c.kind == "impl"]
